@@ -14,8 +14,8 @@ from .. import l1, render
 PID = "C01"
 
 
-def generate(work, depth, workers=8):
-    cfg = (C.SPEC / "GenCtl.cfg").read_text().replace("MaxDepth = 2", f"MaxDepth = {depth}")
+def generate(work, depth, workers=8, allow_invalid=False):
+    cfg = (C.SPEC / "GenCtl.cfg").read_text().replace("MaxDepth = 2", f"MaxDepth = {depth}").replace("AllowInvalid = FALSE", f"AllowInvalid = {'TRUE' if allow_invalid else 'FALSE'}")
     d = Path(work)
     d.mkdir(parents=True, exist_ok=True)
     import shutil
